@@ -560,7 +560,12 @@ func (c *Catalog) AddJsonRpcMethod(d directive.Directive) *jerr.JApiError {
 		return d.KeywordError(err.Error())
 	}
 
-	if c.Interactions.Has(rpcId) {
+	// The id is the key of the interaction in the serialized catalog. A method name may
+	// contain spaces, so two different (method, path) pairs can give the same id.
+	_, sameID := c.Interactions.Find(func(k InteractionID, _ Interaction) bool {
+		return k.String() == rpcId.String()
+	})
+	if sameID {
 		return d.KeywordError(fmt.Sprintf("method is already defined in resource %s", rpcId.String()))
 	}
 
